@@ -330,3 +330,102 @@ Theorem C09_source_key_without_component_refuted :
   /\ (exists e r a, key_eqb_by [KSize; KDur] e r a = true /\ key_eqb e r a = false).
 Proof. exact key_without_component_refuted_lemma. Qed.
 Print Assumptions C09_source_key_without_component_refuted.
+
+(** *** the RENDERED SIZE as a function of the size setting and of the environment (round 9;
+    model/ImgIterRsz.v).  [rsize setting env] is the setting itself when fixed and the
+    resolution [rsize_dyn member env] of a [Size] member otherwise, where the environment has
+    three components nobody tells the iterator about: terminal size, cell ratio
+    ([set_cell_ratio], text styles), cell size (graphics styles).  The code stamps a cached
+    frame with hash(rsize setting env) and evaluates that stamp again PER FRAME: the model is
+    [model/ImgIter.v] on the history lowered to rendered sizes.  For every [rsize_dyn],
+    renderer, frame count, repeat count and EVERY history of next / seek / close / drop /
+    setting changes (fixed -> dynamic, dynamic -> fixed, member -> member, fixed -> fixed) /
+    environment changes (any component, any number of times): caching is transparent ... *)
+From TI Require model.ImgIterEnv model.ImgIterRsz proofs.ImgIterRszProofs.
+
+Theorem C09_imgiter_rsz_cache_transparent :
+  forall (Str Size : Type) (fixed_size : Z -> Z -> Size) (rsize_dyn : nat -> TI.model.ImgIterRsz.env3 -> Size)
+         (fmt_frame : nat -> Size -> TI.model.ImgIter.res Str) (hash : Size -> Z) (N : nat)
+         (repeat pos0 : Z) (g0 : TI.model.ImgIterRsz.setting) (e0 : TI.model.ImgIterRsz.env3)
+         (ops : list (TI.model.ImgIterEnv.eop TI.model.ImgIterRsz.setting TI.model.ImgIterRsz.env3)),
+    let rs := TI.model.ImgIterRsz.rsize fixed_size rsize_dyn in
+    TI.model.ImgIterSpec.renderer_ok fmt_frame N -> repeat <> 0%Z ->
+    TI.model.ImgIterSpec.hash_separates hash
+      (TI.model.ImgIterSpec.sizes_of (rs g0 e0) (TI.model.ImgIterEnv.lower rs g0 e0 ops)) ->
+    TI.model.ImgIter.trace fmt_frame hash N true (TI.model.ImgIter.init Str repeat pos0 (rs g0 e0))
+      (TI.model.ImgIterEnv.lower rs g0 e0 ops) =
+    TI.model.ImgIter.trace fmt_frame hash N false (TI.model.ImgIter.init Str repeat pos0 (rs g0 e0))
+      (TI.model.ImgIterEnv.lower rs g0 e0 ops).
+Proof. exact TI.proofs.ImgIterRszProofs.rsz_cache_transparent. Qed.
+Print Assumptions C09_imgiter_rsz_cache_transparent.
+
+(** ... the size the generator validates a cached frame against is the rendered size of the
+    setting and environment in force at that moment ... *)
+Theorem C09_imgiter_rsz_size_is_current :
+  forall (Str Size : Type) (fixed_size : Z -> Z -> Size) (rsize_dyn : nat -> TI.model.ImgIterRsz.env3 -> Size)
+         (fmt_frame : nat -> Size -> TI.model.ImgIter.res Str) (hash : Size -> Z) (N : nat)
+         (cached : bool) (repeat pos0 : Z) (g0 : TI.model.ImgIterRsz.setting) (e0 : TI.model.ImgIterRsz.env3)
+         (ops : list (TI.model.ImgIterEnv.eop TI.model.ImgIterRsz.setting TI.model.ImgIterRsz.env3)),
+    let rs := TI.model.ImgIterRsz.rsize fixed_size rsize_dyn in
+    TI.model.ImgIterSpec.renderer_ok fmt_frame N -> repeat <> 0%Z ->
+    (cached = true -> TI.model.ImgIterSpec.hash_separates hash
+      (TI.model.ImgIterSpec.sizes_of (rs g0 e0) (TI.model.ImgIterEnv.lower rs g0 e0 ops))) ->
+    TI.model.ImgIter.size
+      (TI.model.ImgIter.after fmt_frame hash N cached repeat pos0 (rs g0 e0) (TI.model.ImgIterEnv.lower rs g0 e0 ops)) =
+    rs (fst (TI.model.ImgIterEnv.cur g0 e0 ops)) (snd (TI.model.ImgIterEnv.cur g0 e0 ops)).
+Proof. exact TI.proofs.ImgIterRszProofs.rsz_size_is_current. Qed.
+Print Assumptions C09_imgiter_rsz_size_is_current.
+
+(** ... and A CACHED ENTRY IS SERVED ONLY FOR THE RENDERED SIZE IT WAS MADE FOR: after every
+    such history an entry (f, h) that passes the validity test under the current setting and
+    environment was rendered at a size equal to the CURRENT rendered size, and f is the direct
+    formatting of that frame at the current rendered size *)
+Theorem C09_imgiter_rsz_served_entry_current :
+  forall (Str Size : Type) (fixed_size : Z -> Z -> Size) (rsize_dyn : nat -> TI.model.ImgIterRsz.env3 -> Size)
+         (fmt_frame : nat -> Size -> TI.model.ImgIter.res Str) (hash : Size -> Z) (N : nat)
+         (repeat pos0 : Z) (g0 : TI.model.ImgIterRsz.setting) (e0 : TI.model.ImgIterRsz.env3)
+         (ops : list (TI.model.ImgIterEnv.eop TI.model.ImgIterRsz.setting TI.model.ImgIterRsz.env3))
+         (k : nat) (f : Str) (h : Z),
+    let rs := TI.model.ImgIterRsz.rsize fixed_size rsize_dyn in
+    TI.model.ImgIterSpec.renderer_ok fmt_frame N -> repeat <> 0%Z ->
+    TI.model.ImgIterSpec.hash_separates hash
+      (TI.model.ImgIterSpec.sizes_of (rs g0 e0) (TI.model.ImgIterEnv.lower rs g0 e0 ops)) ->
+    let s := TI.model.ImgIter.after fmt_frame hash N true repeat pos0 (rs g0 e0) (TI.model.ImgIterEnv.lower rs g0 e0 ops) in
+    let zc := rs (fst (TI.model.ImgIterEnv.cur g0 e0 ops)) (snd (TI.model.ImgIterEnv.cur g0 e0 ops)) in
+    TI.model.ImgIter.ph s = TI.model.ImgIter.P1 \/ TI.model.ImgIter.ph s = TI.model.ImgIter.P2 ->
+    nth k (TI.model.ImgIter.cache s) None = Some (f, h) ->
+    h = hash zc ->
+    exists z, h = hash z /\ fmt_frame k z = TI.model.ImgIter.Ok f /\ z = zc /\ fmt_frame k zc = TI.model.ImgIter.Ok f.
+Proof. exact TI.proofs.ImgIterRszProofs.rsz_served_entry_current. Qed.
+Print Assumptions C09_imgiter_rsz_served_entry_current.
+
+(** EXCLUDED stamp (setting, terminal size): on a dynamic setting, an environment change that
+    leaves the terminal size alone (the cell ratio) makes the caching iterator differ from
+    the non-caching one *)
+Theorem C09_imgiter_stamp_setting_term_refuted :
+  exists (e' : TI.model.ImgIterRsz.env3)
+         (ops : list (TI.model.ImgIterEnv.eop TI.model.ImgIterRsz.setting TI.model.ImgIterRsz.env3)),
+    TI.model.ImgIterRsz.term_size e' = TI.model.ImgIterRsz.term_size TI.proofs.ImgIterRszProofs.e_a /\
+    let fmt := TI.model.ImgIterEnv.fmt_env TI.proofs.ImgIterRszProofs.ex_rs TI.proofs.ImgIterRszProofs.ex_fmt in
+    let stamp := TI.model.ImgIterRsz.stamp_setting_term (@pair Z Z) TI.proofs.ImgIterRszProofs.ex_hash TI.proofs.ImgIterRszProofs.ex_hst in
+    let g0 := TI.model.ImgIterRsz.Dyn 0 in
+    let e0 := TI.proofs.ImgIterRszProofs.e_a in
+    TI.model.ImgIter.trace fmt stamp 2 true (TI.model.ImgIter.init Z (-1) 0 (g0, e0)) (TI.model.ImgIterEnv.lower2 g0 e0 ops) <>
+    TI.model.ImgIter.trace fmt stamp 2 false (TI.model.ImgIter.init Z (-1) 0 (g0, e0)) (TI.model.ImgIterEnv.lower2 g0 e0 ops).
+Proof. exact TI.proofs.ImgIterRszProofs.stamp_setting_term_refuted. Qed.
+Print Assumptions C09_imgiter_stamp_setting_term_refuted.
+
+(** EXCLUDED stamp "kind of the setting decided when the iterator is created": fixed at
+    creation, dynamic later, then a terminal resize *)
+Theorem C09_imgiter_stamp_kind_at_creation_refuted :
+  exists (g0 : TI.model.ImgIterRsz.setting)
+         (ops : list (TI.model.ImgIterEnv.eop TI.model.ImgIterRsz.setting TI.model.ImgIterRsz.env3)),
+    TI.model.ImgIterRsz.is_dyn g0 = false /\
+    let fmt := TI.model.ImgIterEnv.fmt_env TI.proofs.ImgIterRszProofs.ex_rs TI.proofs.ImgIterRszProofs.ex_fmt in
+    let stamp := TI.model.ImgIterRsz.stamp_kind_at_creation (@pair Z Z) TI.proofs.ImgIterRszProofs.ex_dyn
+                   TI.proofs.ImgIterRszProofs.ex_hash TI.proofs.ImgIterRszProofs.ex_hm (TI.model.ImgIterRsz.is_dyn g0) in
+    let e0 := TI.proofs.ImgIterRszProofs.e_a in
+    TI.model.ImgIter.trace fmt stamp 2 true (TI.model.ImgIter.init Z (-1) 0 (g0, e0)) (TI.model.ImgIterEnv.lower2 g0 e0 ops) <>
+    TI.model.ImgIter.trace fmt stamp 2 false (TI.model.ImgIter.init Z (-1) 0 (g0, e0)) (TI.model.ImgIterEnv.lower2 g0 e0 ops).
+Proof. exact TI.proofs.ImgIterRszProofs.stamp_kind_at_creation_refuted. Qed.
+Print Assumptions C09_imgiter_stamp_kind_at_creation_refuted.
